@@ -243,7 +243,7 @@ func genC03(tier string, seed uint64, run int) *Scenario {
 		n, t = nt(r, 5)
 	}
 	p["n"], p["t"] = n, t
-	if run%8 == 5 {
+	if run%8 == 5 || (tier != "thorough" && run == 11) { // (run 11 is an ECDSA run: run%8 == 5 never is one in quick)
 		p["ids"] = "congruent" // two ids equal modulo q: must be refused, or still yield a sound sharing
 	}
 	sc := &Scenario{Check: "C03", Kind: "proto", Seed: seed, Run: run, P: p}
